@@ -151,7 +151,7 @@ def fromConfigWith (a : PeerIdArith) (replicaId npeers : Nat) (selective : Bool)
   { self := replicaId, peers := fromConfigPeers a replicaId npeers, selective := selective }
 
 /-- the arithmetic of the current tree -/
-def currentArith : PeerIdArith := .pinned
+def currentArith : PeerIdArith := .fixed
 
 def fromConfig (replicaId npeers : Nat) (selective : Bool) : Router :=
   fromConfigWith currentArith replicaId npeers selective
